@@ -31,12 +31,11 @@
   * 28a04d7 "fix: implicit integrator subtracted the RNE velocity derivative instead of adding it":
     `implicit()` now calls `derivative.deriv_rne_vel(m, d, d.qLU)` (default `flg_subtract=False`).  Kernel level:
     `rne_vel_body2jnt_adds` (with the flag false the kernel ADDS `dt·cdof_i·Dcfrcbody` to `qDeriv_out`).  The VALUE of
-    the flag at the call site is NOT pinned by a theorem: the host extractor (`harness/translate/hostgraph.py`)
-    records, per launch, the kernel, the enclosing host conditions and the ARRAY fields read/written; scalar
-    launch inputs (here the callee's parameter `flg_subtract`, a constant folded from the default) are not
-    emitted into `Gen/Host.lean`, and the event of `deriv_rne_body2jnt_sparse` reads and writes `d.qLU` for
-    either sign.  This is left to the oracle (harness/props/c08.py and c27.py compare a full implicit step
-    with mj_step and `M − h·qDeriv` with finite differences).
+    the flag at the call site is pinned by `implicit_rne_flag`: the host extractor (`harness/translate/hostgraph.py`)
+    emits, besides the events, the ORDERED launch arguments (`Gen.Host.forward_step_args`: literal scalars as `const:v`,
+    statically known host parameters as `name=v`), and the only launch of `deriv_rne_body2jnt_sparse` carries
+    `flg_subtract=False`.  The oracle (harness/props/c08.py, c27.py) additionally compares a full implicit step with
+    mj_step and `M − h·qDeriv` with finite differences.
   * 062cee5 "fix: plane-capsule contact frame ignored the capsule axis when it is within 30 degrees of the
     plane normal": found by the lock-step oracle of this property (collision code, not modelled here).
 
@@ -49,9 +48,9 @@
 
   What is missing (C08_partial): `forward` is abstract (C01–C06); the final activation kernel of `_advance`
   is `mj_nextActivation` by hypothesis `hactL` (C03 `next_act`); implicit/implicitfast are covered at the
-  `_advance` level plus the sign of the RNE term at kernel level; host events do not pin argument POSITIONS
-  (reads are sets: swapping `act_t0` and `d.act_dot` in the launch would not change `Gen/Host.lean`) nor
-  scalar inputs (`scale`, `flg_subtract`) — the lock-step oracle decides those.
+  `_advance` level plus the sign of the RNE term at kernel level; argument positions and scalar inputs of the stage launches and the
+  RNE sign flag are pinned through the ordered-argument side table (`rk_stage_launch_args`, `implicit_rne_flag`); a scalar
+  that is computed at run time (the tableau entries `A[i]`) is pinned by name only.
 -/
 import MjwVerif.Lemmas.Real
 import MjwVerif.Lemmas.C08
@@ -677,7 +676,7 @@ theorem rk_stage_host_facts : rkStageFacts = (perturbLaunches, actWriters) := by
     writes `d.qvel`) and, under `m.na and act_t0 is not None`, again `_next_velocity` (reads `act_t0`, `d.act_dot`,
     `m.opt.timestep`; writes `d.act`).  Re-introducing `_next_activation` (or any other kernel, or other arrays)
     for the stage activations changes the regenerated `Gen/Host.lean` and breaks this proof.
-    (Reads/writes are SETS of array fields: the extractor pins neither argument positions nor the scalar `scale`.) -/
+    (Reads/writes are SETS of array fields; argument positions and the stage coefficient are pinned by `rk_stage_launch_args`.) -/
 theorem rk_perturb_launches : rkStageFacts.1 = perturbLaunches :=
   congrArg Prod.fst rk_stage_host_facts
 
@@ -697,8 +696,8 @@ def implicitRneFacts : List (EvKind × String × List String × List String × L
 
 /-- (7c) **implicit_rne_launch**: the RNE velocity derivative is accumulated by `deriv_rne_body2jnt_sparse`, launched
     exactly once in `step()`, in the full-implicit branch only, reading and writing `d.qLU` (after `_map_m2d` stored
-    `M − dt·qDeriv_smooth` there).  The SIGN argument `flg_subtract` of that launch is a scalar and is not part of the
-    host events (see the header); its meaning at kernel level is `rne_vel_body2jnt_adds`. -/
+    `M − dt·qDeriv_smooth` there).  The SIGN argument `flg_subtract` of that launch is pinned by `implicit_rne_flag` (ordered
+    launch-argument side table `forward_step_args`); its meaning at kernel level is `rne_vel_body2jnt_adds`. -/
 theorem implicit_rne_launch :
     implicitRneFacts =
       [(EvKind.launch, "derivative.deriv_rne_body2jnt_sparse",
@@ -706,6 +705,33 @@ theorem implicit_rne_launch :
           "m.opt.integrator in (IntegratorType.IMPLICITFAST, IntegratorType.IMPLICIT)",
           "m.opt.integrator == IntegratorType.IMPLICIT"],
          ["Dcfrcbody", "d.cdof", "d.qLU", "m.dof_bodyid", "m.opt.timestep", "m.qD_fullm_i", "m.qD_fullm_j"], ["d.qLU"])] := by
+  decide +kernel
+
+/-- ordered argument lists (inputs then outputs; literal scalars as `const:v`, statically known host parameters as
+    `name=v`) of the launches of kernel `k` in `step()` whose condition list mentions the condition `c` -/
+def launchArgsOf (k c : String) : List (List String) :=
+  withId k fun kid => withId c fun cid =>
+    ((forward_step.zip forward_step_args).filter
+        (fun p => p.1.kind == EvKind.launch && p.1.subject == kid && p.1.conds.contains cid)).map (fun p => p.2.map name)
+
+/-- (7e) **implicit_rne_flag**: the ONE launch of `deriv_rne_body2jnt_sparse` in `step()` receives the host value
+    `flg_subtract = False` (the default of `deriv_rne_vel`; `implicit()` passes nothing since fix 28a04d7), as its 7th
+    argument, with `d.qLU` as the output.  Together with `rne_vel_body2jnt_adds` this pins the SIGN: `M − dt·qDeriv`
+    gains `+dt·∂qfrc_bias/∂qvel`.  Passing `flg_subtract=True` again changes the regenerated side table and breaks this
+    proof. -/
+theorem implicit_rne_flag :
+    launchArgsOf "derivative.deriv_rne_body2jnt_sparse" "m.opt.integrator == IntegratorType.IMPLICIT"
+      = [["m.dof_bodyid", "d.cdof", "m.opt.timestep", "m.qD_fullm_i", "m.qD_fullm_j", "Dcfrcbody", "flg_subtract=False", "d.qLU"]] := by
+  decide +kernel
+
+/-- (7f) **rk_stage_launch_args**: argument ORDER of the two `_next_velocity` launches of `_rk_perturb_state` (kernel
+    signature: timestep, x_in, xdot_in, scale, x_out): velocities `qvel_t0 + a·h·d.qacc → d.qvel`, activations
+    `act_t0 + a·h·d.act_dot → d.act`, both with the SAME stage coefficient `a` (= `A[i]`) that `_next_position` uses. -/
+theorem rk_stage_launch_args :
+    launchArgsOf "forward._next_velocity" "loop:range(3)"
+      = [["m.opt.timestep", "qvel_t0", "d.qacc", "a", "d.qvel"], ["m.opt.timestep", "act_t0", "d.act_dot", "a", "d.act"]]
+    ∧ launchArgsOf "forward._next_position" "loop:range(3)"
+      = [["m.opt.timestep", "m.jnt_type", "m.jnt_qposadr", "m.jnt_dofadr", "qpos_t0", "d.qvel", "a", "d.qpos"]] := by
   decide +kernel
 
 end host
